@@ -100,8 +100,11 @@ def setup(ctx):
 def set_fs(rng):
     fs = float(rng.choice([1e9, 1.6e10, 8e10, 1e12]))
     with core.quiet():
-        T.gv(sps=int(rng.choice([4, 8, 16])), fs=fs)
-    return fs
+        if rng.integers(5) == 0:      # a sampling rate that is not an integer multiple of the slot rate: everything follows gv.fs, not sps*R
+            T.gv(R=fs / float(rng.choice([2.5, 3.3, 7.6])), fs=fs)
+        else:
+            T.gv(sps=int(rng.choice([4, 8, 16])), fs=fs)
+    return float(T.gv.fs)
 
 
 def w_basic(ctx, rng, i):
